@@ -98,8 +98,10 @@ impl SkAtoms {
 
 /// The Pointcheval–Sanders relation with two full pairings:
 /// σ1 ≠ 𝟙 ∧ e(σ1, X̃ + Σ mᵢ·Ỹᵢ) = e(σ2, g̃).
+/// Both elements must lie in the prime-order group G1 (a curve point outside it pairs to 1 with
+/// everything and is no signature).
 pub fn ps_verify(pk: &PkAtoms, m: &[Scalar], s1: &G1Affine, s2: &G1Affine) -> bool {
-    if bool::from(s1.is_identity()) {
+    if bool::from(s1.is_identity()) || !bool::from(s1.is_torsion_free()) || !bool::from(s2.is_torsion_free()) {
         return false;
     }
     assert_eq!(pk.y2s.len(), m.len());
@@ -132,7 +134,7 @@ pub fn sigproof(
         z,
         c,
     );
-    let wf = !bool::from(s1.is_identity());
+    let wf = !bool::from(s1.is_identity()) && bool::from(s1.is_torsion_free()) && bool::from(s2.is_torsion_free());
     let lhs: G2Projective = G2Projective::from(pk.x2) + G2Projective::from(*c_point);
     let link = pairing(s1, &lhs.to_affine()) == pairing(s2, &pk.g2);
     sch && wf && link
